@@ -93,9 +93,12 @@ func Execute(b *[]byte, p unsafe.Pointer, s *vars.Stack, flags uint64, prog *ir.
 			x, f, p, q = s.Drop()
 		case ir.OP_recurse:
 			vt, pv := ins.Vp2()
+			/* the flag describes the value handed over here, not the one this program was called with */
 			f := flags
 			if pv {
 				f |= (1 << alg.BitPointerValue)
+			} else {
+				f &^= (1 << alg.BitPointerValue)
 			}
 			*b = buf
 			if vt.Indirect() {
@@ -191,13 +194,14 @@ func Execute(b *[]byte, p unsafe.Pointer, s *vars.Stack, flags uint64, prog *ir.
 			}
 		case ir.OP_eface:
 			*b = buf
-			if err := EncodeTypedPointer(b, *(**rt.GoType)(p), (*unsafe.Pointer)(rt.Add(p, 8)), s, flags); err != nil {
+			/* a value held by an interface is never addressable */
+			if err := EncodeTypedPointer(b, *(**rt.GoType)(p), (*unsafe.Pointer)(rt.Add(p, 8)), s, flags&^(1<<alg.BitPointerValue)); err != nil {
 				return err
 			}
 			buf = *b
 		case ir.OP_iface:
 			*b = buf
-			if err := EncodeTypedPointer(b, (*(**rt.GoItab)(p)).Vt, (*unsafe.Pointer)(rt.Add(p, 8)), s, flags); err != nil {
+			if err := EncodeTypedPointer(b, (*(**rt.GoItab)(p)).Vt, (*unsafe.Pointer)(rt.Add(p, 8)), s, flags&^(1<<alg.BitPointerValue)); err != nil {
 				return err
 			}
 			buf = *b
